@@ -24,7 +24,9 @@ extern size_t forced_lang_flags;
 size_t language_flags_from_filename_contract(const char *filename) __CPROVER_requires(1) __CPROVER_assigns() __CPROVER_ensures(1) ;
 const char *language_name_from_flags_contract(size_t lang) __CPROVER_requires(1) __CPROVER_assigns() __CPROVER_ensures(1) ;
 _Bool keywords_are_sorted_contract(void) __CPROVER_requires(1) __CPROVER_assigns() __CPROVER_ensures(__CPROVER_return_value == 1) ;
-void init_keywords_for_language_contract(void) __CPROVER_requires(1) __CPROVER_assigns() __CPROVER_ensures(1) ;
+/* C11: the per-language keyword table is rebuilt for the language of THIS file (ghost: language it was built for) */
+size_t g_kw_lang;
+void init_keywords_for_language_contract(void) __CPROVER_requires(1) __CPROVER_assigns(g_kw_lang) __CPROVER_ensures(g_kw_lang == CPD(lang_flags)) ;
 int load_mem_file_contract(const char *filename, struct file_mem *fm)
 __CPROVER_assigns(g_failure_seen)
 __CPROVER_ensures(g_failure_seen == (__CPROVER_old(g_failure_seen) || __CPROVER_return_value < 0))
@@ -33,6 +35,8 @@ __CPROVER_ensures(g_failure_seen == (__CPROVER_old(g_failure_seen) || __CPROVER_
  * (modelled by exit_contract being reachable from here: the run simply does not continue) */
 void uncrustify_file_contract(struct file_mem *fm, struct FILE *pfout, const char *parsed_file, const char *dump_filename, _Bool is_quiet, _Bool defer)
 __CPROVER_requires(pfout == (struct FILE*)0 || pfout == &g_stdout_obj || (pfout == &g_file_tmp && g_tmp_open && !g_tmp_closed) || pfout == &g_file_out)
+/* C11: a file is tokenized with the keyword table of its own language, whatever table an earlier file of the invocation left behind */
+__CPROVER_requires(g_kw_lang == CPD(lang_flags))
 __CPROVER_assigns(g_tmp_write_error)
 __CPROVER_ensures(pfout != &g_file_tmp ==> g_tmp_write_error == __CPROVER_old(g_tmp_write_error))
 ;
@@ -88,6 +92,21 @@ __CPROVER_assigns()
 /* a write error recorded on the stream is reported */
 __CPROVER_ensures((f == &g_file_tmp && g_tmp_write_error) ==> __CPROVER_return_value != 0)
 ;
+/* fflush / fsync (not called on the pinned tree; part of the libc model so that code using them is decided, not refused):
+ * they report a failure of THIS flush only (C standard 7.21.5.2) - an earlier failed write stays recorded on the stream
+ * (g_tmp_write_error) and is reported by ferror / makes the file incomplete whatever fflush returns */
+int fflush_contract(struct FILE *f)
+__CPROVER_requires(f == &g_file_tmp || f == &g_file_out || f == &g_stdout_obj)
+__CPROVER_assigns(g_tmp_write_error)
+__CPROVER_ensures(__CPROVER_old(g_tmp_write_error) ==> g_tmp_write_error)
+__CPROVER_ensures((f == &g_file_tmp && __CPROVER_return_value != 0) ==> g_tmp_write_error)
+;
+int fileno_contract(struct FILE *f) __CPROVER_requires(1) __CPROVER_assigns() __CPROVER_ensures(1) ;
+int fsync_contract(int fd)
+__CPROVER_assigns(g_tmp_write_error)
+__CPROVER_ensures(__CPROVER_old(g_tmp_write_error) ==> g_tmp_write_error)
+__CPROVER_ensures(__CPROVER_return_value != 0 ==> g_tmp_write_error)
+;
 int fclose_contract(struct FILE *f)
 __CPROVER_requires(f == &g_file_tmp || f == &g_file_out)
 __CPROVER_assigns(g_tmp_closed, g_tmp_closed_ok, g_failure_seen)
@@ -137,7 +156,7 @@ __CPROVER_requires(!(CPD(do_check) && CPD(if_changed)))
 __CPROVER_requires((CPD(do_check) || CPD(if_changed)) ==> D8_FRESH(CPD(bout)))
 __CPROVER_requires(g_fs_writes == 0 && !g_target_opened_for_write && !g_tmp_open && !g_tmp_closed && !g_tmp_closed_ok && !g_tmp_write_error
                    && !g_backup_done_ok && !g_target_is_final && !g_renamed && !g_md5_written && !g_failure_seen)
-__CPROVER_assigns(CPD(lang_flags), g_fs_writes, g_target_opened_for_write, g_tmp_open, g_tmp_closed, g_tmp_closed_ok, g_tmp_write_error,
+__CPROVER_assigns(CPD(lang_flags), g_kw_lang, g_fs_writes, g_target_opened_for_write, g_tmp_open, g_tmp_closed, g_tmp_closed_ok, g_tmp_write_error,
                   g_backup_done_ok, g_target_is_final, g_renamed, g_md5_written, g_failure_seen, g_exit_status, g_matches,
                   __CPROVER_object_upto(CPD(filename), SIZEOF_std_string))
 /* C11-K2: with -l the language of every file is the forced one, whatever an earlier file left in cpd.lang_flags */
